@@ -156,6 +156,21 @@ def opWC (args obs : List String) : Option DecOut :=
     let maxr := ((field "maxr=" obs).bind String.toNat?).getD 99
     let maxms := ((field "maxms=" obs).bind String.toNat?).getD 99999
     let leak := ((field "leak=" obs).bind String.toNat?).getD 99
+    -- logclose: one Close from start to end while Listen is at its "listening" log line; judged on the statement alone
+    -- (Closed() true and never reverting, one underlying close, at most one frame, no leak; Listen's result is either
+    -- nil or the error of reading from the closed connection)
+    if scen == "logclose" then
+      let f :=
+        (if res == ["nil"] then [] else [s!"C15 a single Close call that ran while Listen was starting returned {res}"]) ++
+        (if closed && !reverted then [] else ["C15 Closed() is false after closing or reverted to false: a Listen that was starting while Close ran put the state back"]) ++
+        (if closes == 1 then [] else [s!"C15 underlying connection closed {closes} times"]) ++
+        (if frames ≤ 1 then [] else [s!"C15 {frames} close frames written"]) ++
+        (if lres == "hang" then ["C15 Listen did not return after the connection was closed"] else []) ++
+        (if leak == 0 then [] else [s!"C15 {leak} reader goroutine(s) of the library still alive after the connection was closed and every call returned"]) ++
+        (if maxr ≤ 1 then [] else [s!"C16 {maxr} goroutines inside the underlying ReadMessage at once"])
+      some { corr := if f.isEmpty then none else some s!"model=(res=[nil] closes=1 closed=true reverted=false) go=({all})",
+             fails := f, branch := s!"wc.logclose.{peer}" }
+    else
     -- ---- oracle: the statement of C15 / C16 on what the real connection did ----
     let proceeding := res.filter (· ≠ "multiple")
     let f15 :=
